@@ -2,6 +2,7 @@ SPECIFICATION Spec
 CONSTANTS
   Configs <- ConfigsBugSmall
   Budget = 1
+  Window <- WindowAll
   Bug = "EarlyDone"
 INVARIANT TableAtDone
 INVARIANT TableStaysOK
